@@ -38,17 +38,36 @@ EPS = [1e-6, 1e-5, 1e-4, 1e-3, 1e-2, 0.1]
 BINS = [0.01, 0.02, 0.05, 0.1, 0.1, 0.2, 0.25, 0.5, 1.0]
 
 
-def log_pwm_of(inp):
+def log_pwm_of(inp, m=None):
     """the log-odds matrix exactly as fimo() builds it before calling _pwm_to_mapping"""
     if inp['kind'] == 'raw':
         return numpy.array(inp['log_pwm'], dtype=numpy.float64)
     dt = numpy.float32 if inp.get('dtype') == 'f32' else numpy.float64
-    pwm = numpy.array(inp['pwm'], dtype=dt)
-    return numpy.log2(pwm + inp['eps']) - math.log2(0.25)
+    pwm = numpy.array(inp['pwm'] if m is None else m, dtype=dt)
+    eps = numpy.float64(inp['eps']) if inp.get('epstype') == 'np64' else inp['eps']   # numpy scalars promote
+    return numpy.log2(pwm + eps) - math.log2(0.25)
+
+
+def checked_matrix(inp):
+    """the log-odds matrix whose table is observed: for kind fimo motif number inp['which'] of
+    others[:at] + [pwm] + others[at:] followed by their reverse complements"""
+    if inp['kind'] != 'fimo' or 'which' not in inp:
+        return log_pwm_of(inp)
+    ms = all_motifs(inp)
+    k = inp['which']
+    if k < len(ms):
+        return log_pwm_of(inp, ms[k])
+    return log_pwm_of(inp, ms[k - len(ms)])[::-1, ::-1]
+
+
+def all_motifs(inp):
+    oth = inp.get('others', [])
+    at = inp.get('at', 0)
+    return oth[:at] + [inp['pwm']] + oth[at:]
 
 
 def int_matrix(inp):
-    lp = log_pwm_of(inp)
+    lp = checked_matrix(inp)
     # numba promotes float32 array / float64 scalar to float64
     im = numpy.round(lp.astype(numpy.float64) / numpy.float64(inp['bin'])).astype(numpy.int32)
     return [[int(im[a, j]) for a in range(im.shape[0])] for j in range(im.shape[1])]   # columns
@@ -74,7 +93,21 @@ def run_local(inp):
             sm, tab = fimo_table(inp)
         else:
             lp = log_pwm_of(inp)
-            sm, tab = _pwm_to_mapping(lp, float(inp['bin']))
+            lay = inp.get('layout', 'C')
+            if lay == 'F':
+                lp = numpy.asfortranarray(lp)
+            elif lay == 'slice':                      # a column slice of a wider array, as fimo() passes it
+                big = numpy.zeros((lp.shape[0], lp.shape[1] + 5), dtype=lp.dtype)
+                big[:, 2:2 + lp.shape[1]] = lp
+                lp = big[:, 2:2 + lp.shape[1]]
+            bt = inp.get('bintype', 'float')
+            b = 1 if (bt == 'int' and float(inp['bin']) == 1.0) else numpy.float64(inp['bin']) if bt == 'np64' else float(inp['bin'])
+            keep = lp.copy()
+            sm, tab = _pwm_to_mapping(lp, b)
+            if inp.get('reuse'):
+                sm, tab = _pwm_to_mapping(lp, b)      # the same array again
+            if not numpy.array_equal(keep, lp):
+                raise RuntimeError('verif: _pwm_to_mapping modified its argument')
         return {'ok': True, 'smallest': int(sm), 'cells': [cell(float(x)) for x in tab]}
     except Exception as e:
         return {'ok': False, 'err': repr(e)[:200]}
@@ -90,11 +123,13 @@ def fimo_table(inp):
     orig = F._fast_hits
 
     def spy(X, cl, pwm, pl, thr, bin_size, smallest, pv, pvl):
-        rec['t'] = (int(smallest[0]), numpy.array(pv[int(pvl[0]):int(pvl[1])], dtype=numpy.float64))
+        k = int(inp.get('which', 0))
+        rec['t'] = (int(smallest[k]), numpy.array(pv[int(pvl[k]):int(pvl[k + 1])], dtype=numpy.float64))
         return orig(X, cl, pwm, pl, thr, bin_size, smallest, pv, pvl)
 
     tdt = torch.float32 if inp.get('dtype') == 'f32' else torch.float64
-    motifs = {'m0': torch.tensor(inp['pwm'], dtype=tdt)}
+    ms = all_motifs(inp)
+    motifs = {'m%d' % i: torch.tensor(m, dtype=tdt) for i, m in enumerate(ms)}
     X = torch.zeros(1, 4, 12)
     for i in range(12):
         X[0, (i * 7 + 3) % 4, i] = 1
@@ -102,7 +137,8 @@ def fimo_table(inp):
     try:
         for ov in list(inp.get('pre', [])) + [{}]:
             c = dict(inp, **ov)
-            F.fimo(motifs, X, bin_size=c['bin'], eps=c['eps'], threshold=0.01,
+            eps = numpy.float64(c['eps']) if c.get('epstype') == 'np64' else c['eps']
+            F.fimo(motifs, X, bin_size=c['bin'], eps=eps, threshold=0.01,
                    reverse_complement=bool(c.get('rc', False)))
     finally:
         F._fast_hits = orig
@@ -192,7 +228,10 @@ def hist_key(inp, out):
     wb = 'w1' if w == 1 else 'w2-7' if w <= 7 else 'w8-30'
     n = len(out['cells']) if out.get('ok') else -1
     nb = ('crash' if out.get('crash') else 'err') if n < 0 else 'len<100' if n < 100 else 'len<1000' if n < 1000 else 'len>=1000'
-    return '%s/%s/%s/%s' % (inp['kind'], inp.get('dtype', 'f64'), wb, nb)
+    form = ''.join('+' + str(inp[k]) for k in ('layout', 'bintype', 'epstype') if inp.get(k) not in (None, 'C', 'float'))
+    form += '+reuse' if inp.get('reuse') else ''
+    form += '+multi' if inp.get('others') else ''
+    return '%s%s/%s/%s/%s' % (inp['kind'], form, inp.get('dtype', 'f64'), wb, nb)
 
 
 def tags(inp, out):
@@ -284,6 +323,36 @@ def generate(tier, rng):
                        'dtype': 'f32' if (w + len(pos)) % 2 else 'f64'}
     # the table fimo() uses in the second of two calls on the same motif that differ in eps / bin
     # (cross-call state: caches keyed on the raw PWM, module globals)
+    # argument forms of _pwm_to_mapping: Fortran-ordered / sliced arrays, integer and numpy-scalar
+    # bin_size, the same array passed twice (must not be modified)
+    for i in range(24 if quick else 120):
+        if i % 3 == 0:
+            c = raw_case(rng, rng.choice([1, 2, 3, 5]))
+            c['bin'] = 1.0
+            c['log_pwm'] = [[float(round(x)) for x in row] for row in c['log_pwm']]
+            c['bintype'] = rng.choice(['int', 'int', 'np64'])
+        else:
+            c = rand_case(rng, rng.choice([1, 2, 3, 4, 6]), 1200)
+            c['bintype'] = rng.choice(['float', 'np64'])
+        c['layout'] = rng.choice(['F', 'slice', 'slice', 'C'])
+        c['reuse'] = rng.random() < 0.5
+        yield c
+    # the table of motif number `which` (forward or reverse-complemented) among several motifs of
+    # different widths scanned in one fimo() call (prange over motifs, concatenated tables)
+    for _ in range(10 if quick else 60):
+        c = rand_case(rng, rng.choice([1, 2, 3, 4, 5]), 1200)
+        c['dtype'] = 'f32' if rng.random() < 0.7 else 'f64'
+        nother = rng.randint(1, 5)
+        c['others'] = [norm([rand_col(rng, rng.choice([0.3, 1.0, 'uniform', 'onehot'])) for _j in range(rng.choice([1, 2, 3, 6]))])
+                       for _o in range(nother)]
+        c['at'] = rng.randint(0, nother)
+        c['rc'] = rng.random() < 0.7
+        n = nother + 1
+        c['which'] = rng.randrange(2 * n if c['rc'] else n)
+        if rng.random() < 0.3:
+            c['epstype'] = 'np64'
+        c.update(kind='fimo', pre=[])
+        yield c
     for _ in range(10 if quick else 60):
         w = rng.choice([2, 3, 4, 5, 6])
         c = rand_case(rng, w, 1500)
